@@ -4,9 +4,12 @@
    failure frees what, where) follows the C code (LedgerModel.v); the strings
    inside objects, uninitialised reads and allocator state are runtime
    behaviour, for which AddressSanitizer and the LeakSanitizer check after every
-   scenario of the correspondence runs are the instrument.  Proofs: LedgerFacts.v. *)
+   scenario of the correspondence runs are the instrument.  Proofs: LedgerFacts.v.
+   One function is modelled at BLOCK granularity (OptLedger.v):
+   econf_newKeyFile_with_options - object, copy of the option string, directory
+   arrays and their strings, root prefix. *)
 From Coq Require Import String Lia List.
-From Econf Require Import Bytes BytesFacts LedgerModel LedgerFacts.
+From Econf Require Import Bytes BytesFacts LedgerModel LedgerFacts OptLedger.
 Local Open Scope N_scope.
 
 (* for every tree, settings, callback (= every pattern of refusals: missing
@@ -51,6 +54,23 @@ Theorem C20_ledger_matches_reader : forall t g cb dist etc name sfx dl cm,
   lo_err (read_dirs_ledger t g cb dist etc name sfx dl cm) = r2_err (read_dirs t g cb dist etc name sfx dl cm).
 Proof. exact read_dirs_ledger_matches. Qed.
 Print Assumptions C20_ledger_matches_reader.
+
+(* econf_newKeyFile_with_options at block granularity (OptLedger.v), for every
+   option string - documented items in any order and repetition, list items of
+   any lengths, an unknown item at any position: after the call (success or
+   ECONF_OPTION_NOT_FOUND) the live blocks are exactly those reachable from the
+   object handed to the caller, nothing was freed twice, and econf_free of the
+   object releases every one of them; the instrumented tokenizer returns the
+   code of the model of the function (C15) *)
+Theorem C20_options_owned : forall opts e w l,
+  new_with_options_led opts = (e, w, l) ->
+  balanced (mkLO e (ow_all w) l) = true /\ balanced (mkLO e [] (free_led w l)) = true.
+Proof. exact new_with_options_balanced. Qed.
+Print Assumptions C20_options_owned.
+Theorem C20_options_code : forall opts,
+  fst (fst (new_with_options_led opts)) = fst (new_with_options opts).
+Proof. exact new_with_options_led_code. Qed.
+Print Assumptions C20_options_code.
 
 (* non-vacuity: a parse error in the third consulted file *)
 Example C20_demo :
